@@ -21,7 +21,7 @@ let () =
   let maxmodel = if Array.length Sys.argv > 1 then int_of_string Sys.argv.(1) else 200 in
   let og : ogrammar ref = ref [] and osexp = ref "" and ast = ref "" in
   let names = ref [||] in
-  let cases = ref 0 and modelled = ref 0 and tv = ref 0 and spec = ref 0 and fresh = ref 0 in
+  let cases = ref 0 and modelled = ref 0 and tv = ref 0 and spec = ref 0 and fresh = ref 0 and limited = ref 0 in
   read_lines (fun line ->
     if String.length line > 0 && line.[0] = '#' then print_endline line else
     match split_tab line with
@@ -48,7 +48,11 @@ let () =
       if a <> b then begin incr spec; report "spec" (case ^ " against=vm") a b end;
       (* further columns: freshly generated parsers (1st: the token stream of the in-tree derive_parser compiled as source; 2nd: #[derive(Parser)]) *)
       List.iteri (fun i c -> incr fresh; let c = norm c in
-        if a <> c then begin incr spec; report "spec" (case ^ (if i = 0 then " against=fresh" else " against=fresh-derive")) a c end) rest;
+        let who = if i = 0 then " against=fresh" else " against=fresh-derive" in
+        if c = "Custom call limit reached" && a <> c then begin
+          (* only the fresh parsers run under a call limit (rust/harness/src/c14_fresh_main.rs.in): not an ordinary disagreement *)
+          incr limited; if !limited <= 20 then Printf.printf "LIMIT\t%s%s\t%s\n" case who a end
+        else if a <> c then begin incr spec; report "spec" (case ^ who) a c end) rest;
       if String.length inp / 2 <= maxmodel then begin
         incr modelled;
         let input = unhex inp in
@@ -56,4 +60,4 @@ let () =
         if m <> "Fuel" && m <> a then report "model" (case ^ " side=generated") a m
       end
     | _ -> ());
-  Printf.printf "#RUNNER\tcases=%d\tmodelled=%d\ttv=%d\tmismatches=%d\tspec_differences=%d\tfresh_compared=%d\n" !cases !modelled !tv !mismatches !spec !fresh
+  Printf.printf "#RUNNER\tcases=%d\tmodelled=%d\ttv=%d\tmismatches=%d\tspec_differences=%d\tfresh_compared=%d\tfresh_limited=%d\n" !cases !modelled !tv !mismatches !spec !fresh !limited
